@@ -87,6 +87,20 @@ reg(Spec("C20", "c20_words.cpp", needs=("shim", "optable"), custom="exhaustive",
                       "D2 runs with modulo and bit reversal off, end-pointer modes off, stepi=5, stepj=-3, distinct marker addresses",
                       "forms naming the same register twice and bkrepsto/bkreprst (frame pointer moves by the frame size) are exempt from the step clause"]))
 
+reg(Spec("C03", "c03_alu.cpp", needs=("shim", "optable"),
+         cases={"quick": 40000, "thorough": 700000},
+         rule="first word drawn from the ALU families (alm/alm_r6/alu with or,and,xor,add,addh,addl,sub,subh,subl,cmp,cmpu; or_, "
+              "and_, add, sub, add_p1, sub_p1, cmp*, moda not/neg/rnd/clr/clrr/inc/dec/copy, mov acc, lim, movr), stratified "
+              "by (form, operation); state expanded from a rapidcheck-generated 64-bit value with boundary-biased 40-bit "
+              "accumulators / 16-bit operands, sata in {0,1}, all ten flags random, operand cells poked; expected state built by "
+              "the independent exact-arithmetic model; compared on every field (frame condition) + no memory write. Non-trivial "
+              "= an accumulator or flag changed; distinct by hash(opcode, second word, state).",
+         assumptions=["addressing pinned to the linear case (modulo, bit reversal, end-pointer, stp16 off): stepping is C10's subject",
+                      "product shifter neutral (ps=0): product reads are C04's subject", "no active loop, no pending interrupt",
+                      "bitwise forms (or/and/xor/not, 3-operand or/and) do not saturate on write: as those forms define",
+                      "irregular forms modelled as the source documents them: and #imm8 (bits 8-15 kept), 16-bit movr (carry from bit 16, fv cleared)",
+                      "out of model (left to C01): clr/clrr register pairing, movr through ar words, alm with 40-bit operand for ops other than or/and/xor/add/cmp/sub"]))
+
 # Properties not (yet) claimed. Kept current by hand; every id in properties.jsonl is either in SPECS or here.
 _PENDING = "check not built yet in this round; planned with property-based testing per DESIGN.md"
 NOT_APPLICABLE = [{"property_id": "C%02d" % i, "reason": _PENDING} for i in range(1, 21) if "C%02d" % i not in SPECS]
